@@ -894,7 +894,8 @@ impl<D: AsyncDB, M: MakeConnection<Conn = D>> Runner<D, M> {
                 let num_values = if value_sort {
                     rows.len()
                 } else {
-                    rows.len() * types.len()
+                    // count the values actually returned; `types` may be empty or inconsistent
+                    rows.iter().map(|row| row.len()).sum()
                 };
 
                 if self.hash_threshold > 0 && num_values > self.hash_threshold {
@@ -908,7 +909,7 @@ impl<D: AsyncDB, M: MakeConnection<Conn = D>> Runner<D, M> {
                     let hash = format!("{:2x}", md5.finalize());
                     rows = vec![vec![format!(
                         "{} values hashing to {}",
-                        rows.len() * rows[0].len(),
+                        num_values,
                         hash
                     )]];
                 }
